@@ -183,6 +183,9 @@ def check(repo, tier="quick"):
     rule_d(repo, res, gens)
     from .. import lints
 
+    from .. import quantmatrix
+
+    quantmatrix.rule(repo, res, "C05.e")
     lints.rule(repo, res, "C05.e", [n.split("vc2_conformance.", 1)[-1] for n in sorted(repo.modules) if n.startswith("vc2_conformance.test_cases")])
     res.floor("C05.e", 15)
     res.floor("C05.a", 9)
